@@ -120,6 +120,9 @@ func errorRule(r *Report, p *Program, rule string, floor int, only func(f *ssa.F
 				key := Short(FK(f)) + "→" + Short(k)
 				c := sf("%s#%d", key, ord[key])
 				ord[key]++
+				if goBodiesOf(p, "controller/composite.parentController.syncRevisions")[f] && strings.HasSuffix(k, "customize.Manager.GetRelatedObjects") {
+					key = "controller/composite.parentController.syncRevisions$1→controller/common/customize.Manager.GetRelatedObjects" // the per-revision goroutine body, closure or method
+				}
 				if why, exc := r12Exceptions[key]; exc {
 					r.Check(rule, c+"[exception]", p.InstrPos(in), true, "reasoned exception: "+why, "")
 					continue
@@ -723,4 +726,27 @@ func r12_10(r *Report, p *Program) {
 		}
 		r.Check(rule, FK(f)+"[positive]", p.Pos(f.Pos()), ok, "result is the positive configured value or the 10s default", why)
 	}
+}
+
+var goBodiesCache = map[string]map[*ssa.Function]bool{}
+
+// goBodiesOf: the functions (closures or named functions/methods) that the function named key starts with `go`.
+func goBodiesOf(p *Program, key string) map[*ssa.Function]bool {
+	if m, ok := goBodiesCache[key]; ok {
+		return m
+	}
+	m := map[*ssa.Function]bool{}
+	if f := p.Func(key); f != nil {
+		for _, b := range f.Blocks {
+			for _, in := range b.Instrs {
+				if g, isGo := in.(*ssa.Go); isGo {
+					if cl := engine.StaticFn(g.Common()); cl != nil {
+						m[cl] = true
+					}
+				}
+			}
+		}
+	}
+	goBodiesCache[key] = m
+	return m
 }
